@@ -219,8 +219,17 @@ let split_line (s : string) : string =
     List.iter (fun p -> Printf.bprintf b "%d,%d,%s " (int_of_nat p.pc_pos) (int_of_nat p.pc_end) (hexb p.pc_stmt)) ps;
     Buffer.add_string b "| OK"; Buffer.contents b
 
+(* the REFERENCE lexer (Lex/Reference.v), same line format as projection c14r of the implementation *)
+let ref_line (s : string) : string =
+  match ref_lex (bytes_of_string s) with
+  | None -> "ERR"
+  | Some ts ->
+    let b = Buffer.create 128 in
+    List.iter (fun (((k, r), v), base) -> Printf.bprintf b "%s,%s,%s,%d " (hexb k) (hexb r) (hexb v) (int_of_nat base)) ts;
+    Buffer.add_string b "| OK"; Buffer.contents b
+
 let line_fn proj s np =
-  if proj = "fn:split" then split_line s else lex_line s np proj
+  if proj = "fn:split" then split_line s else if proj = "c14r" then ref_line s else lex_line s np proj
 
 let split_cases out =
   try while true do
@@ -232,7 +241,7 @@ let lex_cases out np proj =
   try while true do
     let line = String.trim (input_line stdin) in
     let s = string_of_hex line in
-    Printf.fprintf out "%s => %s\n" (hex_of_string s) (lex_line s np proj)
+    Printf.fprintf out "%s => %s\n" (hex_of_string s) (line_fn proj s np)
   done with End_of_file -> ()
 
 
